@@ -77,13 +77,7 @@ def model_checks(ctx):
 
 # ------------------------------------------------------------------------------------------- jobs
 def pick_dtypes(rng, z, v, vs):
-    zopts = ["float64", "float64", "float32"]
-    if U.all_int_dtype_ok(z, 2):
-        zopts += ["int64", "int32"]
-    vopts = ["float64", "float64", "float32"]
-    if U.all_int_dtype_ok(v, vs):
-        vopts += ["int64", "int32"]
-    return rng.choice(zopts), rng.choice(vopts)
+    return U.pick_dtype(rng, z, 2, U.ZDTYPES), U.pick_dtype(rng, v, vs, U.VDTYPES)
 
 
 def stats_job(rng, z, v, H, W, rt, vs=1, nds=ND6, idlists=IDLISTS, backend="numpy", tag="", p_all=0.12,
@@ -94,9 +88,10 @@ def stats_job(rng, z, v, H, W, rt, vs=1, nds=ND6, idlists=IDLISTS, backend="nump
     stats = list(rng.choice(stat_choices))
     if vdt == "float32":     # float32 arithmetic: only the statistics that stay exact on small integers
         stats = [s for s in stats if s in ("max", "min", "sum", "count", "range", "n", "dsum")] or ["sum", "count"]
-    return {"fn": "stats", "H": H, "W": W, "z": list(z), "v": list(v), "vs": vs, "zdt": zdt, "vdt": vdt,
-            "nd": rng.choice(nds), "all": all_, "ids": ids, "stats": stats, "rt": rt,
-            "backend": backend, "steps": backend == "numpy", "tag": tag}
+    job = {"fn": "stats", "H": H, "W": W, "z": list(z), "v": list(v), "vs": vs, "zdt": zdt, "vdt": vdt,
+           "nd": rng.choice(nds), "all": all_, "ids": ids, "stats": stats, "rt": rt,
+           "backend": backend, "steps": backend == "numpy", "tag": tag}
+    return U.vary(rng, job, list(v))
 
 
 def enum_jobs(seed, n, zalpha, valpha, both=True, tag="", vfixed=None):
@@ -118,6 +113,20 @@ def enum_jobs(seed, n, zalpha, valpha, both=True, tag="", vfixed=None):
     return jobs
 
 
+def matrix_jobs(seed, nrasters, tag="layout_matrix"):
+    """the systematic layout matrix: every (zones layout, values layout) pair on the same seeded rasters
+    (at least 2 rows and 2 columns, asymmetric content), DataFrame and DataArray alternating."""
+    base = [j for j in random_jobs(seed + 17, 6 * nrasters) if j["H"] > 1 and j["W"] > 1][:nrasters]
+    jobs = []
+    for k, b in enumerate(base):
+        for a, zl in enumerate(U.LAYOUTS):
+            for c, vl in enumerate(U.LAYOUTS):
+                j = dict(b)
+                j.update(zlay=zl, vlay=vl, rt="df" if (k + a + c) % 2 else "da", tag=tag)
+                jobs.append(j)
+    return jobs
+
+
 def random_jobs(seed, count, backend="numpy", tag="random"):
     rng = random.Random(seed * 7919 + (2 if backend == "numpy" else 3))
     jobs = []
@@ -126,11 +135,16 @@ def random_jobs(seed, count, backend="numpy", tag="random"):
         n = H * W
         vs = rng.choice([1, 1, 2])
         pool = rng.sample([-6, -3, -2, 0, 1, 4, 5, 8, 14, 20], 6)        # ids -3 .. 10 incl. fractional ones
+        if rng.random() < 0.3:
+            pool = rng.sample([0, 2, 4, 8, 14, 20, 40, 510], 6)          # non-negative integer ids (uint8 zones)
         kinds = rng.choice(["finite", "nan", "nan", "posinf", "neginf"])
+        single = backend == "dask" and rng.random() < 0.35               # one finite zone id + NaN zone cells
+        if single:
+            kinds, pool = "nan", [rng.choice(pool)] * 6
         z = []
         for _c in range(n):
             x = rng.random()
-            if kinds != "finite" and x < 0.12:
+            if kinds != "finite" and x < (0.35 if single else 0.12):
                 z.append(NAN)
             elif kinds == "posinf" and x < 0.2:
                 z.append(PINF)
@@ -138,7 +152,8 @@ def random_jobs(seed, count, backend="numpy", tag="random"):
                 z.append(NINF)
             else:
                 z.append(rng.choice(pool[:rng.choice([2, 4, 6])]))
-        vk = rng.choice(["int", "nan", "naninf"])
+        vk = rng.choice(["int", "int", "nan", "naninf"])
+        nonneg = rng.random() < 0.4                                       # unsigned value dtypes
         v = []
         for _c in range(n):
             x = rng.random()
@@ -147,9 +162,9 @@ def random_jobs(seed, count, backend="numpy", tag="random"):
             elif vk == "naninf" and x < 0.25:
                 v.append(rng.choice([PINF, NINF]))
             else:
-                v.append(rng.randrange(-9, 10) * (vs if rng.random() < 0.5 else 1))
+                v.append(rng.randrange(0 if nonneg else -9, 10) * (vs if rng.random() < 0.5 else 1))
         present = sorted({c for c in z if U.finite(c)})
-        cand = present + [c for c in pool if c not in present][:2] + [40]
+        cand = present + [c for c in pool if c not in present][:2] + [998]
         idl = []
         for _k in range(6):
             sub = rng.sample(cand, rng.randrange(0, min(len(cand), 5) + 1))
@@ -290,6 +305,7 @@ def run(ctx):
                       vfixed=six if thorough else six[:2])
     # ---- T: seeded larger rasters (same worker processes / judge JVMs as R: start-up dominates the quick tier)
     jobs += random_jobs(ctx.seed, ctx.pick(1500, 40000))
+    jobs += matrix_jobs(ctx.seed, ctx.pick(60, 600))
     run_batch(ctx, fails, jobs, "replay_and_random", "R/T")
     if thorough:
         run_batch(ctx, fails, enum_jobs(ctx.seed + 2, 4, Z6, V5, both=False, tag="all_n4"), "replay_n4", "R")
